@@ -285,6 +285,42 @@ def r08_3_order_by_scope(ctx: Ctx, rule: str = "R08.3") -> None:
         raise AnalysisError("no placement keeps a sort over a reduced column set: the placement logic changed shape")
 
 
+def r_refusals_only_where_needed(ctx: Ctx, rule: str) -> None:
+    """Appending a unary operation to a Select may be refused only where keeping the row order is impossible."""
+    run = ctx.run
+    run.rule(
+        rule,
+        "_append_unary_to_select raises only in the cells where the sort of the Select would have to move to an outer query "
+        "that cannot see its columns: a Projection over a sorted Select that must be nested (DISTINCT upstream, or a UNION "
+        "whose sort needs a dropped column).  Everywhere else an individually valid operation is accepted (merged, slotted or "
+        "nested), never rejected",
+        expected_min=200,
+    )
+    for f, c, state, outs, raises in placements(ctx):
+        inst = f"{c.name}@{_state_label(state)}"
+        allowed = c.name == "Projection" and state["has_sort"] and (state["has_deduplication"] or state["is_compound"])
+        # (a Deduplication that has to nest a sorted, sliced Select is in the same position: see known finding D20)
+        allowed = allowed or (c.name == "Deduplication" and state["has_sort"] and state["has_slice"] and not state["has_deduplication"])
+        if not state["has_sort"]:
+            # without a sort `sort.columns_required` is empty and a test `not sort.columns_required <= X` cannot come out true
+            sel = [q for q in f.params if q != "self"][1]
+            raises = [p for p in raises if not any(fct.kind == "LE" and not fct.polarity and fct.args[0] == f"{sel}.sort.columns_required" for fct in path_facts(p))]
+        if raises and not allowed:
+            p = raises[0]
+            run.fail(
+                rule,
+                inst,
+                f"a {c.name} applied to a Select with {_state_label(state)} can be refused (`{src(p.node.exc)[:60] if isinstance(p.node, ast.Raise) and p.node.exc is not None else 'raise'}`): "
+                "nothing forces this Select into a subquery, so the operation - valid on its own - must be accepted",
+                fi=f,
+                node=p.node,
+                details=describe(p),
+                facts={"state": state},
+            )
+        else:
+            run.ok(rule, inst, {"refusals": len(raises)})
+
+
 def r_order_survives(ctx: Ctx, rule: str) -> None:
     """A sort followed only by slices, projections and deduplications must still order the outermost query."""
     run = ctx.run
